@@ -172,4 +172,43 @@ def jsIdent (s : String) : String :=
   let stem := if Gen.jsIdentTrims then trimUnderscores s else s
   if Gen.jsKeywords.contains stem || (Gen.jsIdentEscapesIDL && stem == "IDL") then s ++ "_" else s
 
+/-! ## Motoko: spelling of names (`bindings/motoko.rs`, `escape`) -/
+
+def isIdStart (c : Char) : Bool := ('a' ≤ c ∧ c ≤ 'z') ∨ ('A' ≤ c ∧ c ≤ 'Z') ∨ c = '_'
+def isIdChar (c : Char) : Bool := isIdStart c ∨ ('0' ≤ c ∧ c ≤ '9')
+def isValidAsId : List Char → Bool
+  | [] => false
+  | c :: r => isIdStart c && r.all isIdChar
+
+/-- `escape(id, false)`: keywords and identifiers ending in `_` get one more `_`; anything that is not an
+identifier is replaced by its hash between underscores.  Whether the identifier test comes before the
+keyword lookup is read off the source by the translator (`async*` is in the table but is no identifier). -/
+def decDigits (n : Nat) : List Char :=
+  if n < 10 then [Char.ofNat (48 + n)] else decDigits (n / 10) ++ [Char.ofNat (48 + n % 10)]
+termination_by n
+decreasing_by omega
+
+def moEscape (s : String) : String :=
+  let hashed := "_" ++ String.ofList (decDigits (idlHash s)) ++ "_"
+  if Gen.moEscapeIdFirst then
+    if isValidAsId s.toList then
+      (if Gen.motokoKeywords.contains s || s.toList.getLast? = some '_' then s ++ "_" else s)
+    else hashed
+  else if Gen.motokoKeywords.contains s then s ++ "_"
+  else if isValidAsId s.toList then (if s.toList.getLast? = some '_' then s ++ "_" else s)
+  else hashed
+
+/-! ## TypeScript: doc comment lines (`escape_doc_comment`: `line.replace("*/", "*\\/")`) -/
+
+def escapeDocLine : List Char → List Char
+  | '*' :: '/' :: r => '*' :: '\\' :: '/' :: escapeDocLine r
+  | c :: r => c :: escapeDocLine r
+  | [] => []
+
+/-- does the text contain the two characters that end a block comment? -/
+def hasCommentEnd : List Char → Bool
+  | '*' :: '/' :: _ => true
+  | _ :: r => hasCommentEnd r
+  | [] => false
+
 end Candid.Bindgen
